@@ -4,7 +4,9 @@ import struct, json
 UNDEF = -1
 MOD_IDS = {"tests": 1, "pe": 2}
 MOD_NAMES = {v: k for k, v in MOD_IDS.items()}
-ERR = {0: "SUCCESS", 26: "TIMEOUT", 28: "CALLBACK_ERROR", 30: "TOO_MANY_MATCHES", 61: "BLOCK_NOT_READY"}
+ERR = {0: "SUCCESS", 26: "TIMEOUT", 28: "CALLBACK_ERROR", 30: "TOO_MANY_MATCHES", 61: "BLOCK_NOT_READY", 46: "TOO_MANY_RE_FIBERS"}
+BOMB_RE = "/BOMB(x{1,60}){1,60}y/"          # needs more than RE_MAX_FIBERS (1024) fibers on BOMB_DATA
+BOMB_DATA = b"BOMB" + b"x" * 300 + b"y"
 U8_OFF_FROM_END = 3   # uint8(filesize - 3) is the probed byte; files carry 'Q' there iff u8
 
 
@@ -119,7 +121,14 @@ def sources(rules, extra_imports=()):
             mod = ("global " if r["global"] else "") + ("private " if r["private"] else "")
             pads = "".join('    $p%d = "ZZPAD%dZZ%d"\n' % (j, j, i) for j in range(r.get("pad", 0)))
             strings = ('  strings:\n%s    $m = "%s"\n' % (pads, marker(r["mk"]).decode())) if r["mk"] else ""
+            if r["mk"] and r.get("re"):
+                # the same occurrences through the regexp engine (a class keeps it from being compiled as a literal)
+                strings = '  strings:\n%s    $m = /MK%d[;:]/\n' % (pads, r["mk"])
+            if r.get("bomb"):
+                strings = '  strings:\n    $m = %s\n' % BOMB_RE
             cond = cond_text(r["cond"], names)
+            if r.get("bomb"):
+                cond = "(%s) and (#m >= 0)" % cond
             if r["mk"] and r.get("pad", 0):
                 cond = "(%s) or any of ($p*)" % cond      # never-matching padding strings: push $m to a high string index
             if r["mk"] and r["cond"]["k"] not in ("M", "NM", "Cnt"):
@@ -150,8 +159,12 @@ def make_file(fid, kind, blocks_spec, u8, nmarkers, pad=b"."):
         for m, cnt in enumerate(bs["mk"], start=1):
             for _ in range(cnt):
                 blk += pad * bs.get("gap", 1) + marker(m)
+        if bs.get("bomb"):
+            blk += BOMB_DATA
         blk += pad * bs.get("filler", 0)
         blocks.append({"size": len(blk), "mk": list(bs["mk"]) + [0] * (nmarkers - len(bs["mk"])), "ep": ep})
+        if bs.get("bomb"):
+            blocks[-1]["bomb"] = True
         sizes.append(len(blk))
         data += blk
     # the u8 probe lives U8_OFF_FROM_END bytes before the end; plant 'Q' there when asked and the byte is filler
@@ -168,7 +181,7 @@ def make_file(fid, kind, blocks_spec, u8, nmarkers, pad=b"."):
 def to_trace(rules, imports, scans, run_events, maxm):
     """Join the recorded driver events with the abstract inputs into the NDJSON consumed by ScanTrace.tla.
     scans: list of dicts {file, flags:[..], timeout:bool, mode} in the order of the ScanCall events."""
-    out = [{"e": "Rules", "rules": rules, "imports": imports}]
+    out = [{"e": "Rules", "rules": rules, "imports": imports, "bomb": any(q.get("bomb") for q in rules)}]
     si = -1
     for ev in run_events:
         e = ev["e"]
